@@ -61,12 +61,29 @@ def parseLoc (s : String) : Option (Bool × Bytes × Nat) :=
   | some (.v6 ip p) => some (true, ip, p)
   | _ => none
 
-/-- apply Proceed / Abort(code) / nothing to a pending connection -/
+/-- `A<code>` or `A<code>:<err>` with err = nil | errno<n> | werrno<n> | dns | dnsnf | rejected | opaque<k> -/
+def parseDial (act : String) : Option DialResult :=
+  match splitCh (act.drop 1).toString ':' with
+  | [c] => c.toNat?.map fun n => { code := n }
+  | [c, e] => do
+    let n ← c.toNat?
+    let err ← (if e == "nil" then some DialErr.none
+      else if e == "dns" then some (.dns false)
+      else if e == "dnsnf" then some (.dns true)
+      else if e == "rejected" then some .rejected
+      else if e.startsWith "werrno" then (e.drop 6).toNat?.map (fun k => DialErr.errno k true)
+      else if e.startsWith "errno" then (e.drop 5).toNat?.map (fun k => DialErr.errno k false)
+      else if e.startsWith "opaque" then (e.drop 6).toNat?.map DialErr.opaque
+      else none)
+    pure { code := n, err := err }
+  | _ => none
+
+/-- apply Proceed / Abort(dialResult) / nothing to a pending connection -/
 def applyAct (act : String) (b : Bytes) : M Unit :=
   if act == "P" then proceed b
   else if act.startsWith "A" then
-    match (act.drop 1).toNat? with
-    | some c => abort b c
+    match parseDial act with
+    | some dr => abort b dr
     | none => pure ()
   else pure ()
 
@@ -109,7 +126,12 @@ def nonesOp (cs : Chunks) : String :=
 def httpsOp (tk : Option (List (Bytes × Bytes))) (cs : Chunks) (act : String) : String :=
   let m : M (Bytes × Addr) := do
     let r ← serverHandleH SSV.Gen.C07.connectKeepsReadAhead tk
-    if act == "P" then proceedH else if act.startsWith "A" then abortH else pure ()
+    if act == "P" then proceedH
+    else if act.startsWith "A" then
+      match parseDial act with
+      | some dr => abortH dr
+      | none => pure ()
+    else pure ()
     pure r
   let (res, s) := m { inp := cs }
   match res with
